@@ -35,11 +35,23 @@ def floors(tier):
             "events": {"TimeScale.ticks": 8000, "calendar.calls": 10000}, "paths": paths, "distinct_nontrivial": 5000}
 
 
-def run_case(ctx, S, a, b, m, tag):
-    case = {"domain": [a, b], "m": m}
+_REUSE = {"scale": None}
+
+
+def run_case(ctx, S, a, b, m, tag, reuse=None):
+    case = {"domain": [a, b], "m": m, "reuse": reuse}
     meff = 10 if m is None else m
     try:
-        s = S.TimeScale().domain([a, b])
+        prev = _REUSE["scale"]
+        if reuse == "same-object" and prev is not None:
+            s = prev.domain([a, b])  # a scale that already produced ticks for another domain
+            ctx.path("reused-scale-object")
+        elif reuse == "copy" and prev is not None:
+            s = prev.copy().domain([a, b])
+            ctx.path("copied-scale-object")
+        else:
+            s = S.TimeScale().domain([a, b])
+        _REUSE["scale"] = s
         ticks = s.ticks(m) if m is not None else s.ticks()
         ticks = list(ticks)
     except Exception as e:
@@ -47,7 +59,10 @@ def run_case(ctx, S, a, b, m, tag):
         return
     probs = T.judge_time_ticks(a, b, meff, ticks)
     if probs:
-        ctx.judge(tag, VIOLATED, case, finding={"problems": probs[:4], "n": len(ticks), "ticks": ticks[:6]}, key=probs[0].split(" ")[0] + " " + probs[0].split(" ")[1])
+        p0 = probs[0]
+        key = ("tick-outside-domain" if "outside the domain" in p0 else "not-increasing" if "not strictly increasing" in p0 else "count" if p0.startswith("count")
+               else "alignment" if "is not on a" in p0 else "gap-ratio" if "gaps differ" in p0 else "ms-ticks" if "per millisecond" in p0 else "other")
+        ctx.judge(tag, VIOLATED, case, finding={"problems": probs[:4], "n": len(ticks), "ticks": ticks[:6]}, key=key)
     else:
         ctx.judge(tag, HELD, {"domain": [a, b], "m": m, "n": len(ticks), "ticks": ticks[:3]}, nontrivial=len(ticks) >= 3, dig="%s|%s|%r" % (a, b, m))
 
@@ -63,7 +78,7 @@ def worker(ctx, shard):
     rng = ctx.rng("ticks%d" % shard["sub"])
     for _ in range(shard["n"]):
         a, b, m, tag = timedom.gen_time_domain(rng)
-        run_case(ctx, S, a, b, m, tag)
+        run_case(ctx, S, a, b, m, tag, reuse=rng.choice([None, None, None, "same-object", "copy"]))
     ctx.event("TimeScale.ticks", tm.events["ticks"])
     ctx.event("calendar.calls", sum(cm.calls.values()))
     for k, v in tm.paths.items():
